@@ -481,4 +481,18 @@ example : moduleIgnore [(1, ["name-defined".toList])] (some { line := 2, firstDe
 example : moduleIgnore [(1, []), (2, ["misc".toList]), (4, [])] (some { line := 3, firstDecoratorLine := none })
     = { wholeModule := true, errCodes := none, ignores := [(2, ["misc".toList]), (4, [])] } := by decide
 
+/-! ## skipped lines of statically unreachable blocks -/
+
+/-- **the skipped range of an unreachable block is `[line, end_line]`, both ends included** (so an ignore comment
+    on the LAST line of the block is not reported as unused) -/
+theorem skipped_lines_inclusive (bs : List BlockSpan) (l : Nat) :
+    l ∈ skippedLines bs ↔ ∃ b ∈ bs, b.line ≤ l ∧ l ≤ b.endLine := by
+  simp only [skippedLines, blockLines, List.mem_flatMap, List.mem_range'_1]
+  constructor
+  · rintro ⟨b, hb, h1, h2⟩; exact ⟨b, hb, h1, by omega⟩
+  · rintro ⟨b, hb, h1, h2⟩; exact ⟨b, hb, h1, by omega⟩
+
+example : skippedLines [⟨4, 6⟩, ⟨9, 9⟩] = [4, 5, 6, 9] := by decide
+example : 6 ∈ skippedLines [⟨4, 6⟩] := by decide
+
 end ParseNorm
